@@ -139,6 +139,11 @@ DiffMicro(a, b) ==     \* |a - b| in micro-degrees, saturated
   IF Abs(a[1] - b[1]) > 1000 THEN FARAWAY
   ELSE Abs((a[1] - b[1]) * 1000000 + a[2] - b[2])
 MicroOf(c) == IF Abs(c[1]) > 1000 THEN FARAWAY ELSE c[1] * 1000000 + c[2]
+SmallMicro(c) == Abs(c[1]) <= 1000
+\* |a - b| reduced modulo 360 degrees into 0..180e6 micro-degrees (a, b SmallMicro)
+DiffMicroMod360(a, b) ==
+  LET m == ((a[1] - b[1]) * 1000000 + a[2] - b[2]) % 360000000
+  IN  IF m > 180000000 THEN 360000000 - m ELSE m
 
 \* NL of a latitude known to +-0.5 micro-degree: smallest possible value (widest zones).
 \* |lat| >= t_k is possible as soon as a >= floor(t_k * 1e6)
